@@ -17,7 +17,7 @@ def san_env(logbase):
     return e
 
 
-_REPO_FRAME = re.compile(r'#\d+ 0x[0-9a-f]+ in (\S+) (/repo/\S+|\S*xrayglob_inline\S*)')
+_REPO_FRAME = re.compile(r'#\d+ 0x[0-9a-f]+ in (\S+) (' + re.escape(build.REPO) + r'/\S+|\S*xrayglob_inline\S*)')
 
 
 def parse_san_logs(logbase, extra_files=()):
